@@ -7,6 +7,7 @@ from ..core import AnalysisError, Undecided
 from .. import e1_model as e1
 from .. import e2_regex as e2
 from .common import norm, calls_in
+from . import strterms as st_
 
 VALID_TAG = r"#[A-Za-z_][A-Za-z0-9_-]*"
 VALID_START = r"#[A-Za-z_]"
@@ -25,12 +26,12 @@ def check(ctx, rep, tier):
                  "findall through an order-preserving comprehension")
     rep.describe("labels-stripped-first", "the matcher and the subject splitter see the text "
                  "after the labels were stripped")
-    cm = ctx.mod("ctparse.ctparse")
+    cm = ctx.imod("ctparse.ctparse")
     facts_nm = _text_pipeline(cm, cm.func("ctparse"), start_state="raw", only_after_empty_guard=True)
     facts_m = _text_pipeline(cm, cm.func("_ctparse"), start_state="norm")
     _languages(ctx, rep, cm, facts_nm, facts_m)
     _derivation(ctx, rep, cm, facts_nm, facts_m)
-    _order(ctx, rep, cm)
+    _order(ctx, rep, cm, facts_m)
     rep.assume("not decided: 'drops exactly the words inside the matches the resolution was "
                "built from' (the code filters by string equality against every match of every "
                "surviving sequence)")
@@ -44,89 +45,84 @@ def _re_call(e, fname):
         and isinstance(e.args[0], ast.Constant)
 
 
-def _strip_outer(e):
-    strip = False
-    while isinstance(e, ast.Call) and isinstance(e.func, ast.Attribute) and e.func.attr == "strip" and not e.args:
-        strip = True
-        e = e.func.value
-    return e, strip
+def _unwrap_order(t):
+    """strip the order-keeping wrappers (filter / list copy / prefix) from a word-list term;
+    returns (inner term, wrappers met)"""
+    seen = []
+    while isinstance(t, tuple) and t and t[0] in st_.ORDER_KEEPING:
+        seen.append(t)
+        t = t[1]
+    return t, seen
 
 
 def _text_pipeline(cm, f, start_state, only_after_empty_guard=False):
-    """Walk the statements in order and record what is done to the text variable."""
+    """Provenance of the subject, the labels and the matcher input of one path, as terms over the
+    text parameter (sa/checks/strterms.py), summarised in the facts the clauses compare."""
     tparam = f.args.args[0].arg
-    state = {tparam: start_state}
+    T = st_.Terms(cm)
+    env = {tparam: ("text", start_state)}
+    T.run(f.body, env)
     facts = {"labels_on": None, "label_fn": None, "strip_pat": None, "strip_stripped": False,
-             "split_pat": None, "split_on": None, "join_sep": None, "matcher_on": None, "where": cm.where(f)}
-    body = f.body
-    if only_after_empty_guard:
-        for n in ast.walk(f):
-            if isinstance(n, ast.If) and any(isinstance(c, ast.Call) and e1.callee_name(c.func) == "CTParse"
-                                             for b in n.body for c in ast.walk(b)):
-                body = n.body
-                facts["where"] = cm.where(n)
-
-    def visit(stmts):
-        for st in stmts:
-            if isinstance(st, ast.Try):
-                visit(st.body)
-                continue
-            if isinstance(st, ast.Assign) and len(st.targets) == 1:
-                tgt = st.targets[0]
-                v = st.value
-                names = [tgt.id] if isinstance(tgt, ast.Name) else \
-                    ([tgt.elts[0].id] if isinstance(tgt, ast.Tuple) and isinstance(tgt.elts[0], ast.Name) else [])
-                inner, stripped = _strip_outer(v)
-                # normalisation
-                if isinstance(inner, ast.Call) and e1.callee_name(inner.func) == "_preprocess_string" and inner.args \
-                        and isinstance(inner.args[0], ast.Name):
-                    for nm in names:
-                        state[nm] = "norm" if state.get(inner.args[0].id) in ("raw", "norm") else "?"
-                    continue
-                # label helper
-                if isinstance(inner, ast.Call) and isinstance(inner.func, ast.Name) and \
-                        inner.func.id in cm.funcs and inner.func.id.startswith("_get_label") and inner.args \
-                        and isinstance(inner.args[0], ast.Name):
-                    facts["labels_on"] = state.get(inner.args[0].id)
-                    facts["label_fn"] = inner.func.id
-                    continue
-                # label stripping
-                if _re_call(inner, "sub") and len(inner.args) >= 3 and isinstance(inner.args[2], ast.Name) \
-                        and isinstance(inner.args[1], ast.Constant) and inner.args[1].value == "":
-                    src = state.get(inner.args[2].id)
-                    facts["strip_pat"] = inner.args[0].value
-                    facts["strip_stripped"] = stripped
-                    facts["strip_on"] = src
-                    for nm in names:
-                        state[nm] = "stripped" if src == "norm" else "stripped-" + str(src)
-                    continue
-                # word split
-                for c in ast.walk(v):
-                    if _re_call(c, "split") and len(c.args) >= 2 and isinstance(c.args[1], ast.Name):
-                        facts["split_pat"] = c.args[0].value
-                        facts["split_on"] = state.get(c.args[1].id)
-                    if isinstance(c, ast.Call) and isinstance(c.func, ast.Attribute) and c.func.attr == "split" \
-                            and isinstance(c.func.value, ast.Name) and c.func.value.id in state and not _re_call(c, "split"):
-                        facts["split_pat"] = ("str.split", norm(c.args[0]) if c.args else None)
-                        facts["split_on"] = state.get(c.func.value.id)
-                    if isinstance(c, ast.Call) and isinstance(c.func, ast.Attribute) and c.func.attr == "join" \
-                            and isinstance(c.func.value, ast.Constant):
-                        if any(isinstance(t, ast.Name) and t.id == "subject" for t in [tgt]) or "subject" in names:
-                            facts["join_sep"] = c.func.value.value
-                # plain copy of the text into the subject (no split/join)
-                if "subject" in names and isinstance(v, ast.Name) and v.id in state:
-                    facts["split_pat"] = None
-                    facts["split_on"] = state.get(v.id)
-                    facts["join_sep"] = None
-                # the matcher
-                for c in ast.walk(v):
-                    if isinstance(c, ast.Call):
-                        fn = c.func
-                        is_mr = (isinstance(fn, ast.Name) and fn.id == "_match_regex") or \
-                            (isinstance(fn, ast.Call) and fn.args and norm(fn.args[0]) == "_match_regex")
-                        if is_mr and c.args and isinstance(c.args[0], ast.Name):
-                            facts["matcher_on"] = state.get(c.args[0].id)
-    visit(body)
+             "split_pat": None, "split_on": None, "join_sep": None, "matcher_on": None, "where": cm.where(f),
+             "subject_term": None, "labels_term": None, "strip_on": None}
+    pick = None
+    for (name, ats, kws, node) in T.ctors:
+        if name != "CTParse":
+            continue
+        first = ats[0] if ats else kws.get("resolution")
+        is_none = first == ("const", None)
+        if is_none == bool(only_after_empty_guard):
+            pick = (ats, kws, node)
+    if pick is None:
+        raise AnalysisError("anchor vanished: CTParse construction in {}".format(f.name))
+    ats, kws, node = pick
+    facts["where"] = cm.where(node)
+    subj = ats[3] if len(ats) > 3 else kws.get("subject")
+    labs = ats[4] if len(ats) > 4 else kws.get("labels")
+    facts["subject_term"], facts["labels_term"] = subj, labs
+    # labels
+    if isinstance(labs, tuple) and labs and labs[0] == "call" and labs[2]:
+        facts["label_fn"] = labs[1]
+        facts["labels_on"] = st_.text_state(labs[2][0])
+    # subject
+    if isinstance(subj, tuple) and subj and subj[0] == "join":
+        facts["join_sep"] = subj[1] if isinstance(subj[1], str) else None
+        words, _ = _unwrap_order(subj[2])
+        src = None
+        if isinstance(words, tuple) and words and words[0] == "resplit":
+            facts["split_pat"] = words[1]
+            src = words[2]
+        elif isinstance(words, tuple) and words and words[0] == "ssplit":
+            facts["split_pat"] = ("str.split", words[1])
+            src = words[2]
+        else:
+            # order-losing or unknown wrappers: look for the split below them
+            for h in ("resplit", "ssplit"):
+                hit = st_.find(words, h)
+                if hit:
+                    facts["split_pat"] = hit[0][1] if h == "resplit" else ("str.split", hit[0][1])
+                    src = hit[0][2]
+                    break
+        if src is not None:
+            facts["split_on"] = st_.text_state(src)
+            inner, stripped = st_.strip_ops(src)
+            subs = [x for x in st_.find(src, "sub") if x[3] == ""]
+            if subs:
+                facts["strip_pat"] = subs[0][1]
+                facts["strip_on"] = st_.text_state(subs[0][4])
+                facts["strip_stripped"] = stripped and inner is subs[0] or (stripped and inner == subs[0])
+    elif isinstance(subj, tuple) and subj:
+        # no split/join: the text itself (or something else)
+        facts["split_on"] = st_.text_state(subj)
+        subs = [x for x in st_.find(subj, "sub") if x[3] == ""]
+        if subs:
+            facts["strip_pat"] = subs[0][1]
+            facts["strip_on"] = st_.text_state(subs[0][4])
+            facts["strip_stripped"] = st_.strip_ops(subj)[1]
+    # the matcher
+    for (name, cats, cnode) in T.calls:
+        if name == "_match_regex" and cats:
+            facts["matcher_on"] = st_.text_state(cats[0])
     return facts
 
 
@@ -142,9 +138,12 @@ def _languages(ctx, rep, cm, fnm, fm):
     if helper is None:
         raise AnalysisError("anchor vanished: label helper")
     find_pat = None
-    for c in ast.walk(helper):
-        if _re_call(c, "findall"):
-            find_pat = c.args[0].value
+    Th = st_.Terms(cm)
+    henv = {helper.args.args[0].arg: ("text", "norm")} if helper.args.args else {}
+    Th.run(helper.body, henv)
+    for rt, _node in Th.returns:
+        for t in st_.find(rt, "findall"):
+            find_pat = t[1]
     strip_pats = {p for p in (fm["strip_pat"], fnm["strip_pat"]) if p}
     if find_pat is None or not strip_pats:
         raise AnalysisError("anchor vanished: label find/strip patterns")
@@ -299,60 +298,60 @@ def _derivation(ctx, rep, cm, fnm, fm):
             "" if fm["split_on"] == "stripped" else "the subject is split from the {} text".format(fm["split_on"]))
 
 
-def _order(ctx, rep, cm):
+def _order(ctx, rep, cm, fm=None):
     f = cm.func("_ctparse")
-    # subject = [w for w in WORDS if ...]; ' '.join(subject)
-    comp = None
-    for a in ast.walk(f):
-        if isinstance(a, ast.Assign) and len(a.targets) == 1 and norm(a.targets[0]) == "subject":
-            if isinstance(a.value, ast.ListComp):
-                comp = a.value
-            elif isinstance(a.value, ast.Call) and isinstance(a.value.func, ast.Attribute) and a.value.func.attr == "join" \
-                    and a.value.args and isinstance(a.value.args[0], (ast.ListComp, ast.GeneratorExp)):
-                comp = a.value.args[0]
     c = cm.rel + "::_ctparse::subject"
-    if comp is None:
-        # some other construction: order-destroying operations in any definition of the subject
-        defs = [a.value for a in ast.walk(f) if isinstance(a, ast.Assign) and len(a.targets) == 1
-                and norm(a.targets[0]) == "subject"]
-        bad = [n for d in defs for n in ast.walk(d) if (isinstance(n, ast.Call) and isinstance(n.func, ast.Name)
-               and n.func.id in ("set", "sorted", "frozenset", "dict", "reversed")) or isinstance(n, (ast.Set, ast.SetComp))]
-        if bad:
-            rep.violated("order-provenance", c + " iterates the split words in order", cm.where(f),
-                         "the subject goes through {}: the word order of the text is lost".format(norm(bad[0])[:40]))
-        else:
-            rep.undecided("order-provenance", c, cm.where(f), "subject construction not recognised")
-        return
-    g = comp.generators[0]
-    elt_ok = isinstance(comp.elt, ast.Name) and norm(comp.elt) == norm(g.target) and len(comp.generators) == 1
-    rep.add("order-provenance", c + " elements are the words", cm.where(comp), elt_ok,
-            "" if elt_ok else "subject elements are {} (not the words themselves)".format(norm(comp.elt)))
-    # the iterable is the split result (a list), not a set / sorted / dict
-    it = g.iter
-    src = None
-    if isinstance(it, ast.Name):
-        for a in ast.walk(f):
-            if isinstance(a, ast.Assign) and len(a.targets) == 1 and norm(a.targets[0]) == it.id:
-                src = a.value
+    subj = fm.get("subject_term") if fm else None
+    where = fm["where"] if fm else cm.where(f)
+    if not (isinstance(subj, tuple) and subj and subj[0] == "join"):
+        rep.undecided("order-provenance", c, where, "subject construction not recognised: {}".format(
+            st_.term_text(subj)[:80]))
     else:
-        src = it
-    ordered = src is not None and ((_re_call(src, "split")) or (
-        isinstance(src, ast.Call) and isinstance(src.func, ast.Attribute) and src.func.attr == "split"))
-    rep.add("order-provenance", c + " iterates the split words in order", cm.where(comp), bool(ordered),
-            "" if ordered else "the subject iterates {} (order of the text is not guaranteed)".format(
-                norm(src) if src is not None else norm(it)))
-    # the filter only tests membership
-    filt_ok = all(isinstance(t, ast.Compare) and len(t.ops) == 1 and isinstance(t.ops[0], (ast.NotIn, ast.In))
-                  for t in g.ifs)
-    rep.add("order-provenance", c + " filter is a membership test", cm.where(comp), filt_ok,
-            "" if filt_ok else "the subject filter is {}".format([norm(t) for t in g.ifs]))
+        words, wrappers = _unwrap_order(subj[2])
+        lost = [h for h in st_.ORDER_LOSING if st_.find(subj[2], h)]
+        mapped = st_.find(subj[2], "map")
+        is_split = isinstance(words, tuple) and words and words[0] in ("resplit", "ssplit")
+        if lost:
+            rep.violated("order-provenance", c + " iterates the split words in order", where,
+                         "the subject goes through {}(): the word order of the text is lost".format(lost[0]))
+        elif mapped:
+            rep.violated("order-provenance", c + " elements are the words", where,
+                         "subject elements are {} (not the words themselves)".format(
+                             st_.term_text(mapped[0][1])[:40]))
+        elif not is_split:
+            rep.undecided("order-provenance", c, where, "subject construction not recognised: {}".format(
+                st_.term_text(words)[:80]))
+        else:
+            rep.ok("order-provenance", c + " elements are the words", where)
+            rep.ok("order-provenance", c + " iterates the split words in order", where,
+                   "join over {} of the split words".format("/".join(w[0] for w in wrappers) or "the list"))
+            conds = []
+            for w in wrappers:
+                if w[0] == "filter":
+                    conds.extend(w[2])
+                if w[0] == "prefix":
+                    conds.append(None)
+
+            def member(t):
+                if isinstance(t, tuple):      # (test, polarity) from a loop guard
+                    t = t[0]
+                if isinstance(t, ast.UnaryOp) and isinstance(t.op, ast.Not):
+                    t = t.operand
+                return isinstance(t, ast.Compare) and len(t.ops) == 1 and isinstance(t.ops[0], (ast.NotIn, ast.In))
+            filt_ok = all(t is not None and member(t) for t in conds)
+            rep.add("order-provenance", c + " filter is a membership test", where, filt_ok,
+                    "" if filt_ok else "the subject filter is {}".format(
+                        [norm(t[0] if isinstance(t, tuple) else t) if t is not None else "a loop with break"
+                         for t in conds]))
     # labels
     helper = cm.funcs.get("_get_labels")
     if helper is not None:
         comps = [n for n in ast.walk(helper) if isinstance(n, ast.ListComp)]
         bad = [n for n in ast.walk(helper) if isinstance(n, ast.Call) and isinstance(n.func, ast.Name)
                and n.func.id in ("set", "sorted", "frozenset", "reversed")]
-        fa = [n for n in ast.walk(helper) if _re_call(n, "findall")]
+        Th = st_.Terms(cm)
+        Th.run(helper.body, {helper.args.args[0].arg: ("text", "norm")} if helper.args.args else {})
+        fa = [t for rt, _n in Th.returns for t in st_.find(rt, "findall")]
         ok = bool(fa) and not bad and all(len(cmp_.generators) == 1 and not cmp_.generators[0].ifs for cmp_ in comps)
         rep.add("order-provenance", cm.rel + "::_get_labels::labels in text order", cm.where(helper), ok,
                 "" if ok else "labels are reordered, filtered or not taken with findall")
